@@ -15,6 +15,8 @@ RULE = ("H: breadth-first interleavings (depth<=D) of fingerprint() calls - the 
         "fingerprint of an object rebuilt from its plain values. "
         "E: every vector of length 1..N over {0,1,-1,2,1.5,'a','b',None,True}: every single-position change and every transposition of two "
         "elements with different hash() must change the fingerprint of the vector and of a table containing it. "
+        "Nested: a vector of two vectors - every history of fingerprint() calls on the outer and inner vectors, writes through the inner "
+        "handles / through the element read back from the outer vector / of the outer element, compared with a deep rebuild. "
         "non-trivial = state reached by at least one write after at least one fingerprint() call")
 ASSUMPTIONS = ["pairs that Python's hash() cannot tell apart (-1/-2, 1/1.0/True) are excluded, as the statement says",
                "fingerprints are compared inside one process only (they embed hash(str))"]
@@ -368,6 +370,73 @@ def unit_promotions(unit):
     return agg
 
 
+NESTED_EVENTS = ("fp_outer", "fp_a", "fp_b", "w_a", "w_b_via_outer", "w_outer_elem", "w_a_promote", "read_outer")
+
+
+def deep_rebuild_fp(x):
+    """fingerprint of an object built from scratch with the same (nested) plain contents"""
+    from serif import Vector
+
+    def rb(y):
+        if hasattr(y, "_underlying") and hasattr(y, "fingerprint"):
+            return Vector([rb(e) for e in y._underlying])
+        return y
+    return rb(x).fingerprint()
+
+
+def unit_nested(unit):
+    """a (ragged) vector whose elements are vectors contributes their fingerprints: every history (<= depth events, first event
+    fixed by the unit) of fingerprint() calls on the outer / inner vectors and writes through the inner handles, through the
+    element obtained from the outer vector, and of the outer element itself"""
+    from serif import Vector
+    _, first, depth = unit
+    agg = Agg()
+
+    def run(hist):
+        a = Vector([1, 2], name="a"); b = Vector([3, 4, 5], name="b")
+        o = Vector([a, b])
+        k = 10
+        for ev in hist:
+            k += 1
+            if ev == "fp_outer": o.fingerprint()
+            elif ev == "fp_a": a.fingerprint()
+            elif ev == "fp_b": b.fingerprint()
+            elif ev == "w_a": a[0] = k
+            elif ev == "w_b_via_outer": o[1][2] = k
+            elif ev == "w_outer_elem": o[0] = Vector([k, k + 1], name="n")
+            elif ev == "w_a_promote": a[1] = k + 0.5
+            elif ev == "read_outer":
+                repr(o); o.copy(); o[0:1]; list(o)
+        return o, a, b
+
+    def rec(hist):
+        agg.states += 1; agg.transitions += 1; agg.evals += 1
+        case = {"nested_history": list(hist)}
+        try:
+            o, a, b = run(hist)
+            pairs = [("outer", o.fingerprint(), deep_rebuild_fp(o))] + [(nm, x.fingerprint(), deep_rebuild_fp(x)) for nm, x in (("a", a), ("b", b))]
+        except Exception as e:
+            agg.violation(V("fingerprint.nested", "raises-" + type(e).__name__, case, None, repr(e)[:80]))
+            return
+        agg.compared += len(pairs)
+        if any(e.startswith("w_") for e in hist) and any(e.startswith("fp") for e in hist):
+            agg.nontrivial += 1
+        bad = [nm for nm, got, want in pairs if got != want]
+        if bad:
+            writes = [e for e in hist if e.startswith("w_")]
+            agg.violation(V("fingerprint.nested-" + bad[0], "stale-after-" + (writes[-1] if writes else "nothing"), case,
+                            py="# vector of vectors o = Vector([a, b]); history: " + repr(list(hist))))
+            agg.outcomes["stale-fingerprint"] += 1
+            return
+        agg.outcomes["nested-fingerprints-current"] += 1
+        if len(hist) < depth:
+            for ev in NESTED_EVENTS:
+                rec(hist + (ev,))
+
+    rec(tuple(first) if isinstance(first, tuple) else (first,))
+    return agg
+
+
 def check(ctx):
     agg = Agg()
     depth = ctx.pick(3, 4)
@@ -382,7 +451,10 @@ def check(ctx):
         agg.merge(p)
     for p in core.pmap(unit_promotions, [("promote",)]):
         agg.merge(p)
-    agg.notes["bound"] = f"H: depth<={depth} events after the seed; E: vectors of length<={N} over 9 values"
+    ND = ctx.pick(4, 6)
+    for p in core.pmap(unit_nested, [("nested", ev, ND) for ev in NESTED_EVENTS]):
+        agg.merge(p)
+    agg.notes["bound"] = f"H: depth<={depth} events after the seed; E: vectors of length<={N} over 9 values; nested vectors: every history of <={ND} events over {len(NESTED_EVENTS)}"
     return agg
 
 
@@ -392,6 +464,8 @@ def coverage_goals(ctx, agg):
 
 def replay(rec):
     case = rec.get("case") or {}
+    if "nested_history" in case:
+        return set(unit_nested(("nested", tuple(case["nested_history"]), 0)).viol)      # depth 0: just this history
     if "history" not in case:
         return None
     hist = tuple(tuple(e) for e in case["history"])
